@@ -427,7 +427,7 @@ func expandBody(b Body, serial int, noTok bool) []byte {
 			}
 		}
 	case "httpish":
-		pat := []byte("HTTP/1.1 200 OK\r\nContent-Length: 5\r\nTransfer-Encoding: chunked\r\n\r\n5\r\nhello\r\n0\r\n\r\n")
+		pat := []byte("HTTP/1.1 200 OK\r\nContent-Length: 5\r\nConnection: close\r\nTransfer-Encoding: chunked\r\n\r\n5\r\nhello\r\n0\r\n\r\nConnection: keep-alive\r\nContent-Length: 0\r\n\r\nTrailer: X-T\r\nHTTP/1.0 304 Not Modified\r\nConnection: close\r\n\r\n")
 		for i := range out {
 			out[i] = pat[(i+int(b.Seed))%len(pat)]
 		}
